@@ -19,6 +19,7 @@ import (
 	"encoding/json"
 	"fmt"
 	"io"
+	"math/big"
 
 	"shanhu.io/g/errcode"
 )
@@ -48,7 +49,13 @@ func encodeBasic(w io.Writer, v *basic) error {
 
 	switch v.token.Type {
 	case tokInt:
-		if err := writeString(w, v.token.Lit); err != nil {
+		// Go-style literals (0x10, 007) are not JSON numbers; emit the
+		// decimal value.
+		n, ok := new(big.Int).SetString(v.token.Lit, 0)
+		if !ok {
+			return fmt.Errorf("invalid integer: %s", v.token.Lit)
+		}
+		if err := writeString(w, n.String()); err != nil {
 			return err
 		}
 	case tokFloat, tokString:
